@@ -1,10 +1,11 @@
 #!/bin/bash
-# usage: run.sh <tier> <out.json> ; exit 0 = laws hold on every book within the bound, 1 = a book violates a law
+# usage: run.sh <tier> <out.json> ; exit 0 = laws hold on every book within the bound (except the exactly listed known cases), 1 = a book violates a law
 export GOFLAGS=-mod=mod GOPROXY=off GOSUMDB=off GOTOOLCHAIN=local
+repo=${VERIF_REPO:-/repo}
 d=$(mktemp -d)
-printf '{"Replace":{"/repo/x/liquidity/amm/zz_verif_c05_bounded_test.go":"/verif/bounded/c05/book_laws_test.go"}}' > $d/ov.json
-cd /repo && VERIF_TIER=$1 VERIF_BOUNDED_OUT=$2 go test -overlay $d/ov.json -vet=off -count=1 -timeout 1500s -run 'TestVerifC05BookLaws' ./x/liquidity/amm/ > $d/log 2>&1
+printf '{"Replace":{"%s/x/liquidity/amm/zz_verif_c05_bounded_test.go":"/verif/bounded/c05/book_laws_test.go"}}' $repo > $d/ov.json
+cd $repo && VERIF_C05_KNOWN=/verif/bounded/c05/known_cases.txt VERIF_TIER=$1 VERIF_BOUNDED_OUT=$2 go test -overlay $d/ov.json -vet=off -count=1 -timeout 1500s -run 'TestVerifC05BookLaws' ./x/liquidity/amm/ > $d/log 2>&1
 rc=$?
-tail -25 $d/log > ${2%.json}.log
+tail -25 $d/log | cut -c1-2000 > ${2%.json}.log
 rm -rf $d
 exit $rc
